@@ -44,3 +44,95 @@ pub fn k_replay_session_reuse() {
     assert!(r2.status);
     assert!(r2.lines.len() == 2);
 }
+
+/// native witness for the rule-application specs: an API rule that declines its first call and accepts later ones;
+/// a decline must not disable the rule for later evaluations on the same calculator
+#[cfg(not(kani))]
+pub fn k_replay_api_rule() {
+    use crate::{RuleTrait, SmartCalc, SmartCalcConfig};
+    struct Flaky { calls: core::cell::Cell<u32> }
+    impl RuleTrait for Flaky {
+        fn name(&self) -> String { "flaky".to_string() }
+        fn call(&self, _: &SmartCalcConfig, fields: &alloc::collections::BTreeMap<String, TokenType>) -> Option<TokenType> {
+            self.calls.set(self.calls.get() + 1);
+            if self.calls.get() == 1 { return None; }
+            match fields.get("n") { Some(TokenType::Number(n, _)) => Some(TokenType::Number(n * 2.0, NumberType::Decimal)), _ => None }
+        }
+    }
+    let mut calc = SmartCalc::default();
+    assert!(calc.add_rule("en".to_string(), alloc::vec!["{NUMBER:n} foo".to_string()], Rc::new(Flaky { calls: core::cell::Cell::new(0) })));
+    let first = calc.execute("en", "10 foo");
+    let second = calc.execute("en", "10 foo");
+    let out = |r: &crate::smartcalc::ExecuteResult| match &r.lines[0] { Some(l) => match &l.result { Ok(x) => x.output.clone(), Err(e) => e.clone() }, None => String::new() };
+    assert!(out(&first) == "10");
+    assert!(out(&second) == "20");
+}
+#[cfg(kani)]
+pub fn k_replay_api_rule() {}
+
+/// native replay of a registration sequence (engine M c18_ops order: per language en/xx, per rule 0..2: add, delete;
+/// then add_type fam, add_item fam 1, add_item fam 2) + which rule names coincide; oracle: a reference list model
+#[cfg(not(kani))]
+pub fn k_replay_registration() {
+    use crate::{RuleTrait, SmartCalc, SmartCalcConfig};
+    use crate::tokinizer::RuleType;
+    struct Named(String);
+    impl RuleTrait for Named {
+        fn name(&self) -> String { self.0.clone() }
+        fn call(&self, _: &SmartCalcConfig, _: &alloc::collections::BTreeMap<String, TokenType>) -> Option<TokenType> { None }
+    }
+    let n: u8 = vany();
+    vassume(n >= 1 && n <= 6);
+    let mut seq = [0u8; 6];
+    let mut i = 0usize;
+    while i < n as usize { seq[i] = vany(); vassume(seq[i] < 15); i += 1; }
+    let e01: bool = vany(); let e02: bool = vany(); let e12: bool = vany();
+    vassume(!(e01 && e02) || e12);
+    let name_of = |k: usize| -> String { match k { 0 => "n0".to_string(), 1 => if e01 { "n0".to_string() } else { "n1".to_string() }, _ => if e02 { "n0".to_string() } else if e12 { if e01 { "n0".to_string() } else { "n1".to_string() } } else { "n2".to_string() } } };
+    let rules: [Rc<dyn RuleTrait>; 3] = [Rc::new(Named(name_of(0))), Rc::new(Named(name_of(1))), Rc::new(Named(name_of(2)))];
+    let mut calc = SmartCalc::default();
+    let mut model: Vec<usize> = Vec::new();           // rule indices registered for "en", in order
+    let mut fam: Option<Vec<usize>> = None;
+    i = 0;
+    while i < n as usize {
+        let op = seq[i] as usize;
+        if op < 12 {
+            let lang = if op < 6 { "en" } else { "xx" };
+            let r = (op % 6) / 2;
+            if op % 2 == 0 {
+                let got = calc.add_rule(lang.to_string(), Vec::new(), rules[r].clone());
+                assert!(got == (lang == "en"));
+                if got { model.push(r); }
+            } else {
+                let got = calc.delete_rule(lang.to_string(), name_of(r));
+                let pos = if lang == "en" { model.iter().position(|k| name_of(*k) == name_of(r)) } else { None };
+                assert!(got == pos.is_some());
+                if let Some(p) = pos { model.remove(p); }
+            }
+        } else if op == 12 {
+            let got = calc.add_dynamic_type("fam");
+            assert!(got == fam.is_none());
+            if got { fam = Some(Vec::new()); }
+        } else {
+            let idx = op - 12;
+            let got = calc.add_dynamic_type_item("fam", idx, "{value} u", Vec::new(), "{value}", "{value}", alloc::vec![alloc::format!("u{}", idx)], None, None, None);
+            let want = match &fam { Some(v) => !v.contains(&idx), None => false };
+            assert!(got == want);
+            if got { fam.as_mut().unwrap().push(idx); }
+        }
+        // the calculator's own tables equal the model's
+        let cfg = crate::smartcalc::verif_k_local::config_of(&calc);
+        let api: Vec<&Rc<dyn RuleTrait>> = cfg.rule.get("en").unwrap().iter().filter_map(|x| match x { RuleType::API { rule, .. } => Some(rule), _ => None }).collect();
+        assert!(api.len() == model.len());
+        let mut k = 0usize;
+        while k < api.len() { assert!(Rc::ptr_eq(api[k], &rules[model[k]])); k += 1; }
+        match (&fam, cfg.types.get("fam")) {
+            (None, None) => (),
+            (Some(v), Some(t)) => { assert!(t.len() == v.len()); for x in v.iter() { assert!(t.contains_key(x)); } }
+            _ => assert!(false),
+        }
+        i += 1;
+    }
+}
+#[cfg(kani)]
+pub fn k_replay_registration() {}
